@@ -103,6 +103,10 @@ func (c09) Gen(rng *simrt.Rand, seed uint64, tier string) *Case {
 	sleepP := []float64{0, 0.05, 0.3}[rng.Intn(3)]
 	burst := rng.Bool(0.3)
 	cur := 0
+	// two producers, each owning the keys of one parity (a key's arrival order is its owner's
+	// emission order), with an input buffer that grows while they emit
+	twoProd := len(tuples) >= 2 && c.X["typed_twins"] == nil && rng.Bool(0.2) // (twin keys may be one key to the engine: one owner)
+	var ops2 []Op
 	for total > 0 {
 		if !burst || remaining[cur] == 0 || rng.Bool(0.3) {
 			cur = rng.Intn(len(tuples))
@@ -128,12 +132,20 @@ func (c09) Gen(rng *simrt.Rand, seed uint64, tier string) *Case {
 		default:
 			row["v"] = rng.Intn(21) - 5
 		}
-		if rng.Bool(sleepP) {
-			ops = append(ops, Op{K: "sleep", D: int64(time.Duration(1+rng.Intn(2000)) * time.Microsecond)})
+		dst := &ops
+		if twoProd && cur%2 == 1 {
+			dst = &ops2
 		}
-		ops = append(ops, Op{K: "emit", Row: row, Tag: row["id"].(string)})
+		if rng.Bool(sleepP) {
+			*dst = append(*dst, Op{K: "sleep", D: int64(time.Duration(1+rng.Intn(2000)) * time.Microsecond)})
+		}
+		*dst = append(*dst, Op{K: "emit", Row: row, Tag: row["id"].(string)})
 	}
 	c.Clients = [][]Op{ops}
+	if twoProd {
+		c.Clients = append(c.Clients, ops2)
+		c.X["two_producers"] = true
+	}
 	perf := &PerfSpec{ResultChan: 1 + rng.Intn(4), Workers: 1 + rng.Intn(2), PoolSize: 1 + rng.Intn(3)}
 	if rng.Bool(0.6) {
 		perf.Strategy = "block"
@@ -149,6 +161,10 @@ func (c09) Gen(rng *simrt.Rand, seed uint64, tier string) *Case {
 			// the window output (counted); rows handed to the window must not be
 			perf.WindowOut = 1 + rng.Intn(4)
 		}
+	}
+	if twoProd {
+		perf.Strategy, perf.BlockTimeout, perf.DataChan, perf.WindowOut = "expand", 0, 1+rng.Intn(3), id+8
+		perf.Growth, perf.MinInc, perf.Threshold, perf.MaxBuffer = []float64{1.5, 2}[rng.Intn(2)], 1+rng.Intn(2), []float64{0.8, 1.0}[rng.Intn(2)], 4*id+16
 	}
 	sink := SinkSpec{Mode: "sync"}
 	if rng.Bool(0.4) {
@@ -216,7 +232,7 @@ func (c09) Run(e *Env) {
 	// its i-th batch, but it still has to be one of the key's batches and later than the
 	// previous one; completeness is only demanded when the buffer cannot overflow.
 	dropped := int(windowDropped(st))
-	lossy := dropped > 0 || (in.Spec.Perf.Strategy == "drop" && in.Spec.Perf.WindowOut < len(e.C.Clients[0]))
+	lossy := dropped > 0 || (in.Spec.Perf.Strategy == "drop" && in.Spec.Perf.WindowOut < len(e.C.Clients[0])+len(e.C.Clients[len(e.C.Clients)-1]))
 	if lossy {
 		e.Probe("lossy_window_output")
 	}
@@ -231,7 +247,11 @@ func (c09) Run(e *Env) {
 		add := func(class, f string, a ...any) { out = append(out, viol{class, fmt.Sprintf(f, a...)}) }
 		perKey := map[string][]string{}
 		keyOrder = nil
-		for _, op := range e.C.Clients[0] {
+		var allOps []Op // producers own disjoint keys: per key, concatenation preserves arrival order
+		for _, cl := range e.C.Clients {
+			allOps = append(allOps, cl...)
+		}
+		for _, op := range allOps {
 			if op.K != "emit" {
 				continue
 			}
